@@ -3,6 +3,9 @@ package sopenv
 
 import (
 	"context"
+	"crypto/sha1"
+	"encoding/hex"
+	"encoding/json"
 	"fmt"
 	"os"
 	"path/filepath"
@@ -216,4 +219,37 @@ func (e *Env) CoolCaches(ctx context.Context) {
 	if l1 := cache.GetGlobalL1Cache(e.L2); l1 != nil {
 		l1.Handles.Clear()
 	}
+}
+
+// Digest is the configuration of a store: everything except the item count and the timestamp.
+func Digest(si *sop.StoreInfo) string {
+	c := *si
+	c.Count, c.CountDelta, c.Timestamp = 0, 0, 0
+	ba, _ := json.Marshal(struct {
+		Name, Desc, Reg, Blob, Root, Spec, Cel string
+		Slot                                   int
+		Unique, InNode, Active, Global, LB     bool
+		Cache                                  sop.StoreCacheConfig
+	}{c.Name, c.Description, c.RegistryTable, c.BlobTable, c.RootNodeID.String(), c.MapKeyIndexSpecification, c.CELexpression,
+		c.SlotLength, c.IsUnique, c.IsValueDataInNodeSegment, c.IsValueDataActivelyPersisted, c.IsValueDataGloballyCached,
+		c.LeafLoadBalancing, c.CacheConfig}) // not: is_primitive_key / schema / key fields, which SOP infers at run time
+	h := sha1.Sum(ba)
+	if os.Getenv("VERIF_DIGEST_FULL") != "" { return string(ba) }
+	return fmt.Sprintf("%s/%d/%v/%s", c.Name, c.SlotLength, c.IsUnique, hex.EncodeToString(h[:6]))
+}
+
+// StoreDigest reads the store's configuration through the store repository of a fresh transaction ("" if absent).
+func (e *Env) StoreDigest(ctx context.Context, name string) string {
+	t, err := e.NewTxn(ctx, "digest", sop.ForReading, time.Minute)
+	if err != nil {
+		return "error:" + err.Error()
+	}
+	sis, err := t.Two.GetStoreRepository().Get(ctx, name)
+	if err != nil {
+		return "error:" + err.Error()
+	}
+	if len(sis) == 0 {
+		return ""
+	}
+	return Digest(&sis[0])
 }
